@@ -39,14 +39,17 @@ func (c *Ctx) versionPredicate(rule string) *ssa.Function {
 		return nil
 	}
 	var found *ssa.Function
-	core.EachInstr(v, func(i ssa.Instruction) {
-		if call, ok := i.(*ssa.Call); ok {
+	for _, fi := range c.familyInstrs(v) {
+		if call, ok := fi.I.(*ssa.Call); ok {
 			if callee := call.Call.StaticCallee(); callee != nil && c.P.InPkg(callee) &&
 				sigIs(callee.Signature, []func(types.Type) bool{tString}, []func(types.Type) bool{tBool}) {
 				found = callee
 			}
 		}
-	})
+	}
+	if found != nil {
+		c.roles["role:version-predicate"] = found
+	}
 	if found == nil {
 		c.R.Unresolved(rule, "supported-version predicate (func(string) bool called by Validate)")
 	}
@@ -124,18 +127,17 @@ func ruleC02VersionGate(c *Ctx) {
 			continue
 		}
 		var gate *ssa.Call
+		var gateFI famInstr
 		var evals []ssa.Instruction
-		for _, f := range core.WithAnon(fn) {
-			core.EachInstr(f, func(i ssa.Instruction) {
-				if call, ok := i.(*ssa.Call); ok {
-					if call.Call.StaticCallee() == pred {
-						gate = call
-					}
-					if call.Call.StaticCallee() == E {
-						evals = append(evals, call)
-					}
+		for _, fi := range c.familyInstrs(fn) {
+			if call, ok := fi.I.(*ssa.Call); ok {
+				if call.Call.StaticCallee() == pred {
+					gate, gateFI = call, fi
 				}
-			})
+				if call.Call.StaticCallee() == E && len(fi.Path) == 0 {
+					evals = append(evals, call)
+				}
+			}
 		}
 		if gate == nil {
 			c.R.Bad(rule, "gate:"+name, c.P.Pos(fn.Pos()), name+" evaluates without first testing that the root's $schema is a supported draft")
@@ -175,12 +177,18 @@ func ruleC02VersionGate(c *Ctx) {
 				}
 			}
 		}
+		// when the test sits in a helper, every call on the way must hand the error on
+		for _, site := range gateFI.Path {
+			if !errorPropagated(site) {
+				okErr = false
+			}
+		}
 		c.R.Check(okErr, rule, "gate-refuses:"+name, c.pos(gate), "an unsupported $schema returns an error", "the false outcome of the version predicate does not return an error")
 		for _, ev := range evals {
 			if ev.Parent() != fn {
 				continue
 			}
-			c.R.Check(core.Dominates(gate, ev), rule, "gate-dominates:"+name, c.pos(ev), "the version test dominates the evaluation", "an evaluation is reachable without passing the version test")
+			c.R.Check(core.Dominates(gateFI.Top(), ev), rule, "gate-dominates:"+name, c.pos(ev), "the version test dominates the evaluation", "an evaluation is reachable without passing the version test")
 		}
 	}
 	c.R.Floor(rule, "version gates", n, 1)
@@ -427,4 +435,55 @@ func rulePresenceIsNil(c *Ctx, rule string) {
 	if bad == 0 {
 		c.R.OK(rule, "evaluator:no-length-presence-tests", "", fmt.Sprintf("%d branch conditions in the evaluator; none decides the presence of enum, anyOf, oneOf, type list or items array by its length", nIfs))
 	}
+}
+
+// errorPropagated: the error result of the call is tested and its non-nil outcome returns an error.
+func errorPropagated(site ssa.CallInstruction) bool {
+	call, ok := site.(*ssa.Call)
+	if !ok {
+		return false
+	}
+	var errVals []ssa.Value
+	if call.Call.Signature().Results().Len() == 1 {
+		errVals = append(errVals, call)
+	} else if refs := call.Referrers(); refs != nil {
+		for _, r := range *refs {
+			if ex, ok := r.(*ssa.Extract); ok && ex.Index == call.Call.Signature().Results().Len()-1 {
+				errVals = append(errVals, ex)
+			}
+		}
+	}
+	okP := false
+	core.EachInstr(call.Parent(), func(i ssa.Instruction) {
+		ifi, ok := i.(*ssa.If)
+		if !ok {
+			return
+		}
+		x, k, equal, isEq := eqConst(guardAtom{Cond: ifi.Cond, Pol: true})
+		if !isEq || !k.IsNil() {
+			return
+		}
+		isErr := false
+		for _, ev := range errVals {
+			if x == ev {
+				isErr = true
+			}
+			for _, s := range traceSources(x) {
+				if s == ev {
+					isErr = true
+				}
+			}
+		}
+		if !isErr {
+			return
+		}
+		fail := ifi.Block().Succs[0]
+		if equal {
+			fail = ifi.Block().Succs[1]
+		}
+		if blockReturnsError(fail) || blockReturnsErrorDeep(fail) {
+			okP = true
+		}
+	})
+	return okP
 }
